@@ -207,8 +207,13 @@ def main(argv=None):
     if buckets:
         return 1
     if errors:
+        seen = set()
         for e in errors:
-            eprint("HARNESS-ERROR:", e)
+            key = e.split(":", 1)[-1][:300]
+            if key in seen:
+                continue
+            seen.add(key)
+            eprint("HARNESS-ERROR:", e[:2500])
         return 2
     if evaluations == 0:
         eprint("HARNESS-ERROR: no case was executed")
